@@ -165,8 +165,8 @@ def build(ctx):
     ctx.assumptions = ["R1 small scope: numInGroup <= %d, data length <= %d, wire blockLength == compiled (message encoded under the current schema)" % (G, D),
                        "R2 wide range: header values fully symbolic over their type, only assumption: the true size is < 2^48 (fits in size_t); unchecked build, only the header is read",
                        "trait formulas: all argument values whose true size is < 2^62"]
-    plan = [("vs_msg_le.xml", "17", "checked"), ("vs_msg2_le.xml", "17", "checked")] if ctx.quick else [(x, s, "checked") for s in ("11", "14", "17", "20") for x in ("vs_msg_le.xml", "vs_msg_be.xml")] + \
-        [("vs_msg2_le.xml", "17", "checked"), ("vs_msg2_be.xml", "20", "checked")]
+    plan = [("vs_msg_le.xml", "17", "checked"), ("vs_msg2_le.xml", "17", "checked"), ("vs_hdr_j.xml", "17", "checked")] if ctx.quick else [(x, s, "checked") for s in ("11", "14", "17", "20") for x in ("vs_msg_le.xml", "vs_msg_be.xml")] + \
+        [("vs_msg2_le.xml", "17", "checked"), ("vs_msg2_be.xml", "20", "checked"), ("vs_hdr_j.xml", "17", "checked")]
     plan = hgen.plan_env(plan)
     for (xml, std, mode) in plan:
         sch, inc = hgen.gen_headers(ctx, xml)
